@@ -12,6 +12,21 @@ def der_skip(syn, t, env, tagdefault):
     if "explicit_tag_own_descr" in feats: return "F49"
     return None
 
+def unsigned_long_module(rng):
+    """directed (DER leg only): the types asn1c stores in an `unsigned long` -- INTEGER (lb..MAX), lb >= 0 -- over the whole
+    range 0 .. 2^64-1.  The random generator stays below 2^63; the region was the one of finding F20 (NativeInteger_encode_der
+    wrote values >= 2^63 as negative INTEGERs), repaired together with F3."""
+    T = lambda k, **kw: dict(k=k, **kw)
+    U = lambda lo: T("INTEGER", cons=genmod.cons(lo, None))
+    types = [("DU", U(0)), ("DU5", U(5)),
+             ("DUS", T("SEQUENCE", comps=[{"id": "u", "type": U(0)}, {"id": "v", "type": U(1), "opt": "OPTIONAL"}, {"id": "b", "type": T("BOOLEAN")}])),
+             ("DUC", T("CHOICE", comps=[{"id": "i", "type": T("INTEGER", cons=None)}, {"id": "u", "type": U(0)}]))]
+    big = [(1 << 63) - 1, 1 << 63, (1 << 63) + 1, (1 << 64) - 256, (1 << 64) - 2, (1 << 64) - 1, rng.randrange(1 << 63, 1 << 64), rng.randrange(1 << 63, 1 << 64)]
+    vals = {"DU": [0, 127, 128] + big, "DU5": [5, 255, 256] + big,
+            "DUS": [{"u": v, "b": bool(i % 2)} for i, v in enumerate(big)] + [{"u": big[1], "v": big[-3], "b": True}, {"u": 0, "v": 1 << 63, "b": False}],
+            "DUC": [("u", v) for v in big] + [("i", -(1 << 63)), ("i", (1 << 63) - 1)]}
+    return {"name": "DUL", "tagdefault": "AUTOMATIC", "types": types}, vals
+
 def run(ctx):
     ctx.lean()
     gfind.replay_witnesses(ctx)
@@ -19,7 +34,7 @@ def run(ctx):
     nvals = 8 if ctx.quick else 25
     mods = c01.gen_bundles(ctx, nb)
     bm, bvals = genmod.boundary_module(ctx.rng, ctx.quick)
-    cases = [(bm, bvals)]
+    cases = [(bm, bvals), unsigned_long_module(ctx.rng)]
     for m in mods:
         env = dict(m["types"])
         vg = genmod.ValGen(ctx.rng, env)
